@@ -835,7 +835,8 @@ impl HelperAttributesForCompareOp {
     }
     pub fn push_bounds(&self, op: CompareOp, wcb: &mut WhereClauseBuilder) -> bool {
         let mut use_bounds = true;
-        for &source in CompareOp::VARIANTS {
+        // The more specific helper attribute has priority (same order as for fields).
+        for &source in CompareOp::VARIANTS.iter().rev() {
             if source.is_effects_to(op) && use_bounds {
                 use_bounds = wcb.push_bounds(&self.get(source).bounds);
             }
